@@ -108,6 +108,7 @@ pub fn op(mix: Mix) -> BoxedStrategy<Op> {
     }
     if mix.fork > 0 {
         v.push((mix.fork, Just(Op::ForkCycle).boxed()));
+        v.push(((mix.fork / 2).max(1), any::<u8>().prop_map(|m| Op::ForkDuringGc { m }).boxed()));
     }
     if mix.weak_pairs > 0 {
         v.push((mix.weak_pairs, (any::<u8>(), any::<u8>(), 1u8..4, 0u8..4, prop_oneof![5 => Just(0u8), 1 => Just(2u8), 1 => Just(6u8), 1 => Just(1u8)], 0u8..4, prop::bool::weighted(0.2)).prop_map(|(m, root, kind, keep, sem, chain, fin)| Op::WeakPair { m, root, kind, keep, sem, chain, fin }).boxed()));
